@@ -207,7 +207,24 @@ func runC19(c *ShardCtx) {
 						panic(&core.HarnessError{Msg: err.Error()})
 					}
 					h := sha256.Sum256(mr.Stdout)
-					if got != fmt.Sprintf("%x", h[:8]) {
+					// repeated runs of the real tool, and a repeated build inside the server process, print
+					// the same bytes (sources of nondeterminism other than map order: addresses, time,
+					// process ids, counters that survive a build)
+					again := map[string]bool{got: true}
+					for i := 0; i < 3; i++ {
+						again[runReal(realBin, text, &fl)] = true
+					}
+					mr2, err := srv.Call(&m)
+					if err != nil {
+						panic(&core.HarnessError{Msg: err.Error()})
+					}
+					h2 := sha256.Sum256(mr2.Stdout)
+					switch {
+					case len(again) > 1:
+						c.Report(Violation{Desc: fmt.Sprintf("4 runs of the real binary print %d different files", len(again)), Grammar: text, Gen: flagsDesc(&fl)}, "")
+					case h != h2:
+						c.Report(Violation{Desc: "two builds of the same grammar in one process print different files", Grammar: text, Gen: flagsDesc(&fl)}, "")
+					case got != fmt.Sprintf("%x", h[:8]):
 						panic(&core.HarnessError{Msg: "instrumented build (sorted order) and real binary print different parsers for\n" + text})
 					}
 				}
